@@ -44,7 +44,57 @@ T['C16'] = dict(
  text="Theorems (Properties/C16.v): pad reaches exactly max(width, len) characters with the text untouched inside and padding on the requested side(s) (left = floor(n/2) for both); trim removes only leading/trailing characters of the set from the requested side(s) and stops at the first other character; trim = left then right; blank set means all whitespace; reverse and substring commute with any relabelling of characters; validity preserved; the ASCII fast paths of reverse/substring/trim equal the general paths on every string. Tie: strings mixing 1-4-byte characters, all White_Space characters, controls x widths/pad chars/sets/directions, each also with a non-ASCII marker where the operation cannot reach it; the model's White_Space table is compared with char::is_whitespace for all 1 112 064 scalar values on every run.",
  note="upper/lower are Env parameters (std's case mapping), only their validity-preservation law L2 is named.")
 
-order = ['C01', 'C06', 'C07', 'C08', 'C09', 'C14', 'C15', 'C16']
+
+T['C02'] = dict(
+ technique="Coq proofs of the decoders' round trips (escapes, decimal numerals over the whole isize/usize range), of converter totality and child positions via a verified static analysis of the regenerated grammar + differential run of every documented spelling against the real parser and the model parser (PEG on Gen/Grammar.v + converter + scanners)",
+ text="Theorems (Properties/C02.v): every isize / usize value printed in decimal is read back exactly; process_arg (esc s) = s for every string; parsing depends on the text only (re-parse gives the same object); the converter never panics and reads children at the positions a verified static analysis of the regenerated grammar establishes; kernel-evaluated Examples of the documented equivalences ({1..3} = {split: :1..3}, quote = surround, defaults, {trim:\\n}, operation inside/outside map). PARTIAL: the full statement `parse (print t) = Ok t for every well-formed AST and every spelling` is not proved as one theorem (it needs per-rule characterising lemmas of the PEG); it is covered by the correspondence run: random well-formed pipelines in canonical and randomly re-spelled form (shorthand, quote, omitted defaults, leading zeros, -0, redundant escapes) must parse to exactly the generating pipeline, and the model parser must agree with the real one.",
+ note="pest executes the grammar as Model/Peg.v does (ordered choice, greedy repetition, atomic/silent rules): assumed, exercised by the model-vs-real parser comparison on every run.")
+T['C03'] = dict(
+ technique="Coq proof that Template::parse / parse_with_debug and format / format_with_inputs never panic, for ALL strings, templates and inputs: every unwrap() of parser.rs discharged by a verified static analysis (token counts / positions / rule ids) evaluated on the grammar regenerated from template.pest; tracer previews total; checked index arithmetic; + malformed-template and straddling-input correspondence run under catch_unwind and a watchdog",
+ text="Theorems (Properties/C03.v): template_parse s <> Panic and template_parse_with_debug s d <> Panic for every string (numeric conversions return errors, scanners are total, every tree the grammar can produce has the children the converter unwraps -- all_rules chk r_template = true is recomputed on the regenerated grammar on every run); format and format_with_inputs never panic, with debug on or off, cache-free and through any cache state satisfying the invariant; checked isize arithmetic and slice indexing never overflow; tracer previews are total. Termination of the model is by construction (Coq fixpoints). PARTIAL: hangs or panics inside regex, pest, fast-strip-ansi, dashmap or std, stack exhaustion and allocation failure cannot be exhibited by the model; they are explored by the run: token-alphabet strings, double edits, 1-25-digit numerals, arbitrary Unicode through parse, and accepted templates formatted with tracing on/off over inputs whose multi-byte characters straddle byte offsets 15/20/40, every call under catch_unwind with a watchdog, overflow checks and debug assertions on.",
+ note="Pad widths are not bounded in the model (the property excludes astronomically large widths); the generators keep widths small.")
+T['C04'] = dict(
+ technique="Coq proof that format() (both section loops, memo, fast split) equals literals-verbatim + per-section standalone results, with composition laws + differential run: whole template vs concatenation of its parts through the public API vs model, and scanner structure vs expected segments",
+ text="Theorems (Properties/C04.v): format refines spec_format = concat (mapM seg_out) -- literals verbatim and in order, each section replaced by what it alone produces, first failing section fails the call; spec_format distributes over concatenation of templates; a single block equals the same block between literals; the per-call memo and the single-split fast path are unobservable. PARTIAL: `scan (assemble segs) = segs` for all well-formed segment lists is not proved as a theorem (scanner proofs cover totality only); it is covered by the run: random segment lists (literals with $, }, backslashes, ${...}, repeated and near-identical sections) are assembled, parsed by the real scanner and compared with the expected sections and with the model scanner; format(whole) is compared with the concatenation of format({S}) through the public API and with the model.",
+ note="Injectivity of format!(\"{ops:?}\") used as memo key is assumed (the model compares operations structurally).")
+T['C05'] = dict(
+ technique="Coq proof, by induction over call histories, that any sequence of format calls against the process-wide caches returns the cache-free results (cache invariant + every program of the library well-formed) + warm-vs-cold history run with hook counters",
+ text="Theorems (Properties/C05.v): CacheInv (every split entry holds the split its key names; every cached regex is valid) holds of the empty caches and is preserved by every atomic cache operation of a well-formed program; format and format_with_inputs (all loops, memo, fast split, every cache access of every operation, map included) are well-formed; hence one call against any cache state returns its cache-free result, and any history of calls returns, call by call, the documented semantics of (template, input) alone. Tie: histories of 2-120 calls over pools colliding on all but one component of each key (incl. two inputs with equal 64-bit DefaultHasher value), inputs straddling 10 000 bytes / 1 000 parts, failing calls, template objects reused or re-parsed; each warm result vs the model (cache-free and run_st over model caches) and vs a cold rerun after clear_caches(); hook counters show hits/misses/bypasses.",
+ note="Regex::new is assumed pure (a compiled regex is a function of its pattern).")
+T['C10'] = dict(
+ technique="Coq proof that format() with debug on equals format() with debug off as outcomes (tracer total, both section loops refine the same Spec), that every enabling route only sets the debug field + differential run through every route incl. the CLI",
+ text="Theorems (Properties/C10.v): run_pure (impl_format (with_debug t d1) x) = run_pure (impl_format (with_debug t d2) x) for all t, x; the interpreter's tracer calls and the literal previews never fail (previews cut at character boundaries: constants regenerated from debug.rs/template.rs); the debug argument at parse time and the setters change only the debug field. PARTIAL: what is written to stderr is not modelled beyond the operations that can fail. Tie: {!...}, parse_with_debug(Some(true)), with_debug, set_debug, CLI --debug, CLI {!...} x single-block and mixed templates (whitespace-only and long multi-byte literals, map) x inputs straddling the preview limits; result with tracing on == off, and == model.",
+ note="")
+T['C11'] = dict(
+ technique="Coq proof that process_arg (esc s) = s for EVERY string and that esc s shows no raw special character (decoder constants regenerated from parser.rs) + differential run over the full Unicode range, 8 operations x 2 contexts",
+ text="Theorems (Properties/C11.v): for every string s the decoder of parser.rs (regenerated escape table, per-character iteration) applied to the documented escaping of s returns s; the escaped text contains no unescaped : | { } and every backslash escapes the next character; plain text decodes to itself. PARTIAL: that the argument rules of the grammar (simple_arg, split_arg, pad_char) consume exactly the escaped text is not proved per rule; it is covered by the run: arguments over the full Unicode range biased to backslashes, unbalanced braces, colons, pipes, newlines, multi-byte characters through append, prepend, surround, quote, join, split, trim, pad at top level and inside map -- the parsed operation must carry exactly the argument, format must give x+s etc., and the model parser must agree.",
+ note="")
+T['C12'] = dict(
+ technique="Coq proofs: accepted blocks are consumed to the end (grammar anchored at EOI, recomputed on the regenerated grammar), numeric arguments are exact and in range or rejected, no map inside map, tree shape facts + exhaustive token-alphabet sweep and edit corruptions against an independent AST-guided spelling matcher and the model parser",
+ text="Theorems (Properties/C12.v): parse_template s = Ok _ implies the template rule consumed all of s (ends_eoi r_template = true is re-evaluated on the regenerated grammar); the consumed text of any PEG run is a prefix of the input; parse_isize / parse_usize return only in-range values equal to the value of the digits; a map body never yields a Map. PARTIAL: `accepted => a documented spelling` for all strings (unknown names, arity, empty segments) is not a theorem; it is decided on the run by an independent matcher: ALL strings over a 41-token alphabet up to 3 tokens (quick) / 4 (thorough), bare and wrapped in braces, plus single-edit corruptions of printed pipelines and numeric extremes: when the real parser accepts, an AST-guided matcher written from the documentation must account for every character (documented spellings + a short tolerated band: multi-character pad argument, unknown replace flags, map-split without range), and the model parser must agree on accept/reject and structure.",
+ note="")
+T['C13'] = dict(
+ technique="Coq model of main.rs (after clap) with proofs: stdout = library result and exit 0 / nothing on stdout, error on stderr, exit 1; input routes equal; --validate iff parse; --quiet no debug; never exit 101 + spawn-based correspondence of the real binary vs the model and vs the library in-process",
+ text="Theorems (Properties/C13.v): on library Ok r the CLI's stdout is exactly r with exit 0; on a parse or processing error stdout is empty, stderr non-empty, exit 1; the CLI never crashes; stdin = file = argument with trailing whitespace removed; a template file = its trimmed text as argument; --validate exits 0 exactly when the library accepts the template; --quiet never yields debug lines; --debug changes stderr only. PARTIAL: clap's argv parsing, process start-up and the OS pipe are not modelled; stderr is a class (empty / error / debug). Tie: the binary built from the working tree is spawned on generated configurations (template via argument / padded file / unreadable file / both; input via argument / stdin / file / both / missing; --debug, --quiet, --validate; valid, invalid and run-time-failing templates; inputs with trailing Unicode whitespace): stdout bytes, exit status and stderr class vs the model and vs the library in-process.",
+ note="")
+T['C17'] = dict(
+ technique="Coq proof of schedule independence: for any number of threads and any interleaving of their atomic cache operations the cache invariant holds after every step and every finished call returns its cache-free result (both caches are write-determined memo tables; every library program is well-formed) + thread stress run from cold caches",
+ text="Theorems (Properties/C17.v): for every list of well-formed programs, every initial cache state satisfying the invariant and every schedule (list of thread ids, no fairness), the invariant holds at the end (hence after every prefix) and every thread that has finished holds exactly run_pure of its program; for format() calls that is the documented semantics; no thread ever waits in the model; a Get only returns data determined by its own key. PARTIAL: atomicity of DashMap get / insert / entry().or_insert() is assumed; deadlock through shard guards, memory ordering and unsafe code cannot be exhibited by this model. Tie (validation, not proof): 2-16 threads over shared and per-thread templates from cold caches, workloads that make threads miss, fill and hit the same entries; every result vs the single-threaded model result; watchdog for calls that do not return.",
+ note="")
+T['C18'] = dict(
+ technique="Coq proof that format_with_inputs (shared memo, 0/1/many-input branches) equals the per-section specification, with corollaries (same single input = format, missing inputs empty, missing separator space, surplus ignored) + differential run vs public-API composition and model",
+ text="Theorems (Properties/C18.v): format_with_inputs refines spec_format_with_inputs: literals verbatim, section k contributes join (nth k seps \" \") (map (run section k) (nth k inputs [])), first error fails the call; the memo keyed by (input, operations) is unobservable across sections and inputs; when every section gets the same single input the result equals format; sections without inputs contribute nothing; missing separators are a space; surplus inputs and separators are ignored. Tie: templates x input-array shapes (fewer / equal / more, empty / single / multiple, repeated inputs across sections) x separator arrays vs literals + separator-join of format({S_k}, input) through the public API and vs the model.",
+ note="")
+T['C19'] = dict(
+ technique="Coq model of the vt-push-parser 0.13.1 byte state machine as driven by fast-strip-ansi 0.13.1 (plus lossy UTF-8 decoding and the wrapper's shortcut) with proofs of strip(decorate items) = texts items, identity on control-free text, idempotence on every valid string + differential run of model vs crate and of the three laws on the crate",
+ text="Theorems (Properties/C19.v): for every list of items whose texts are valid control-free Unicode and whose sequences are well-formed (CSI with any parameters/intermediates, OSC with BEL or ST, two- and three-character escapes, single shifts, DCS/SOS/PM/APC strings) strip_str (decorate items) = texts items; control-free text is unchanged; strip is idempotent on EVERY valid string (its output is always valid and control-free); the wrapper's borrowed-input shortcut and per-chunk lossy decoding are unobservable; UTF-8 decode(encode s) = s. The model is a transcription of a dependency, tied by the run: decorated texts at top level and inside map, arbitrary strings around ESC and controls (model == crate), a 1136-pair regression corpus.",
+ note="A version bump of fast-strip-ansi / vt-push-parser that changes behaviour shows up as a correspondence failure.")
+T['C20'] = dict(
+ technique="Coq proofs about the constructors and accessors (template_string = text, counts, section info positions and contents, re-parse, debug setters, concat law via format refinement) + differential run of every public accessor vs the model",
+ text="Theorems (Properties/C20.v): parse / parse_with_debug keep the text (template_string t = s); re-parsing it yields the same object; section_count / template_section_count / lengths of the info lists agree; section info lists the parts in order with consecutive overall positions, literal contents verbatim, operations as parsed, template positions counting sections only; the debug accessor reflects the last setting and setters change nothing else; formatting equals concatenating literal contents with each section's standalone result. Tie: templates with no sections, only sections, adjacent and empty sections, ${...}, braces and backslashes in literals, and corrupted strings: every accessor of the real object (incl. Display) vs the model scanner and vs format().",
+ note="")
+
+order = ['C01', 'C02', 'C03', 'C04', 'C05', 'C06', 'C07', 'C08', 'C09', 'C10', 'C11', 'C12', 'C13', 'C14', 'C15', 'C16', 'C17', 'C18', 'C19', 'C20']
 extra = os.path.join(ROOT, 'tools', 'manifest_extra.json')
 if os.path.exists(extra):
     for k, v in json.load(open(extra)).items():
